@@ -34,6 +34,7 @@ def render : Ev → String
   | .valid w p who op v => s!"{if w then "valid_write" else "valid_read"} {showP p} {who} {op} -> {showV v}"
   | .fs fn w p => s!"fs {fn} {if w then "w" else "r"} {showP p}"
   | .mode b => if b then "master absent" else "master present"
+  | .edsave st n => s!"ed_save_name {showP st} -> ={showP n}"
   | .nest g who args _ => s!"ncall {g} {who}" ++ String.join (args.map (fun t => " " ++ showP t))
   | .note s => s
 
@@ -108,6 +109,10 @@ def parseEv (line : String) : Ev :=
   | "il" :: l :: "->" :: es => match unbr l with
     | some l => .il l (es.map (fun t => if t == "-" then none else unbr t))
     | none => .note line
+  | ["ed_save_name", st, "->", n] =>
+    (match unbr st, (if n.startsWith "=" then unbr (n.drop 1).toString else none) with
+     | some st, some n => .edsave st n
+     | _, _ => .note line)
   | "call" :: f :: who :: args => .call f who (args.filterMap unbr)
   | [vk, p, who, op, "->", v] =>
     if vk == "valid_read" || vk == "valid_write" then
@@ -157,7 +162,7 @@ def parseEdCmd (t : String) : Option EdCmd :=
   let a := arg.toList
   match c with
   | "a" => some (.a a) | "e" => some (.e a) | "E" => some (.E a) | "f" => some (.f a) | "r" => some (.r a)
-  | "w" => some (.w a) | "W" => some (.W a)
+  | "w" => some (.w a) | "W" => some (.W a) | "D" => some (.D a)
   | "x" => if a = [] then some .x else none
   | "q" => if a = [] then some .q else none
   | "Q" => if a = [] then some .Q else none
